@@ -33,6 +33,7 @@ type Msg struct {
 	Flags     imap.FlagSet
 	Date      time.Time
 	Mailboxes map[imap.MailboxID]bool
+	Order     int // creation order
 }
 
 // Mbox is a mailbox of the remote.
@@ -90,6 +91,16 @@ type Connector struct {
 	// RejectUnknownMessages makes AddMessagesToMailbox / MoveMessages fail for messages the remote no longer
 	// has (as a real remote does) instead of ignoring them.
 	RejectUnknownMessages bool
+
+	// DedupKey, when it returns a non-empty key for a literal handed to CreateMessage, makes the remote
+	// de-duplicate: if it already has a message with that key (the earliest one counts) it files that
+	// message into the mailbox and answers with its ID instead of creating a new one.
+	DedupKey func(literal []byte) string
+	Dedups   int
+
+	// RejectLiteral, when it returns an error for a literal handed to CreateMessage, makes that call fail
+	// (it runs under the connector's lock: it must not call back into the connector).
+	RejectLiteral func(literal []byte) error
 
 	// LiteralFetches counts GetMessageLiteral calls.
 	LiteralFetches int
@@ -315,11 +326,29 @@ func (c *Connector) CreateMessage(_ context.Context, _ connector.IMAPStateWrite,
 		return imap.Message{}, nil, err
 	}
 
+	if c.RejectLiteral != nil {
+		if err := c.RejectLiteral(literal); err != nil {
+			return imap.Message{}, nil, err
+		}
+	}
+
+	if c.DedupKey != nil {
+		if key := c.DedupKey(literal); key != "" {
+			if known := c.findByKey(key); known != nil {
+				known.Mailboxes[mboxID] = true
+				c.Dedups++
+				c.echoMailboxes(known.ID)
+
+				return imap.Message{ID: known.ID, Flags: known.Flags.Clone(), Date: known.Date}, literal, nil
+			}
+		}
+	}
+
 	c.nextMsg++
 	id := imap.MessageID(fmt.Sprintf("%smsg%d", c.IDPrefix, c.nextMsg))
 	// The remote has no notion of IMAP's per-mailbox \Deleted: it does not remember it (what it
 	// returns to gluon for this call is unchanged).
-	m := &Msg{ID: id, Literal: append([]byte{}, literal...), Flags: flags.Remove(imap.FlagDeleted), Date: date, Mailboxes: map[imap.MailboxID]bool{mboxID: true}}
+	m := &Msg{ID: id, Literal: append([]byte{}, literal...), Flags: flags.Remove(imap.FlagDeleted), Date: date, Mailboxes: map[imap.MailboxID]bool{mboxID: true}, Order: c.nextMsg}
 	c.Messages[id] = m
 
 	msg := imap.Message{ID: id, Flags: flags.Clone(), Date: date}
@@ -336,6 +365,47 @@ func (c *Connector) CreateMessage(_ context.Context, _ connector.IMAPStateWrite,
 	}
 
 	return msg, literal, nil
+}
+
+func (c *Connector) findByKey(key string) *Msg {
+	var best *Msg
+
+	for _, m := range c.Messages {
+		if c.DedupKey(m.Literal) == key && (best == nil || m.Order < best.Order) {
+			best = m
+		}
+	}
+
+	return best
+}
+
+// DedupCandidate reports which message the remote would answer with for a literal, and whether that
+// message is already in the named mailbox.
+func (c *Connector) DedupCandidate(literal []byte, mailbox []string) (imap.MessageID, bool) {
+	c.mu.Lock()
+	defer c.mu.Unlock()
+
+	if c.DedupKey == nil {
+		return "", false
+	}
+
+	key := c.DedupKey(literal)
+	if key == "" {
+		return "", false
+	}
+
+	m := c.findByKey(key)
+	if m == nil {
+		return "", false
+	}
+
+	for id, mb := range c.Mailboxes {
+		if strings.Join(mb.Name, "/") == strings.Join(mailbox, "/") {
+			return m.ID, m.Mailboxes[id]
+		}
+	}
+
+	return m.ID, false
 }
 
 func (c *Connector) echoMailboxes(id imap.MessageID) {
